@@ -121,7 +121,7 @@ fn gen_string(r: &mut Rng) -> String {
             let n = r.range(1, 30);
             (0..n)
                 .map(|_| match r.below(12) {
-                    0 => r.pick(&['\n', ' ', '\t', '\u{feff}', '\u{85}', '\u{2028}', '\u{2029}', '\u{7}', '\u{1b}', '\u{7f}', '\u{9c}', '\0']),
+                    0 => r.pick(&['\n', ' ', '\t', '\u{feff}', '\u{85}', '\u{2028}', '\u{2029}', '\u{7}', '\u{1b}', '\u{7f}', '\u{9c}', '\0', '\u{80}', '\u{84}', '\u{86}', '\u{9f}', '\u{a0}', '\u{8}', '\u{b}', '\u{c}', '\u{e}', '\u{1f}', '\u{fffe}', '\u{ffff}', '\u{fffd}', '\u{d7ff}', '\u{e000}']),
                     1 => r.pick(&['😀', '中', 'é', '\u{10ffff}', '\u{fffd}', '\u{e000}']),
                     2 => r.pick(&C09_ALPHA),
                     _ => r.pick(&['a', 'b', 'c', 'x', 'y', 'z', '0', '1', ' ', '_']),
